@@ -109,6 +109,16 @@ def run_property(pid, tier, seed):
     # ---- [B] bounded stand-ins / assumption validation (run under /venv/bin/python on the real code)
     bounded = []
     fallback_for = [r.key for r in fn_reports if r.status in ("unsupported", "drift")]
+    # generic stand-in: every function's own contract evaluated at run time over a small scope
+    skip = set(getattr(mod, "BOUNDED_SKIP", []))
+    keys = [k for k in mod.FUNCTIONS if k not in skip and eng.reg.get(k) is not None and eng.repo.has_func(k)]
+    budget = getattr(mod, "BOUNDED_BUDGET", 150) * (1 if tier == "quick" else 8)
+    from concurrent.futures import ThreadPoolExecutor
+    with ThreadPoolExecutor(max_workers=8) as ex:
+        for b in ex.map(lambda k: driver.run_bounded(eng, pid, k, budget, seed), keys):
+            bounded.append(b)
+            for fl in b.get("failures", []):
+                findings.append(driver.Finding(pid, fl["name"], fl["what"], fl.get("replay"), True, fl, kind="bounded"))
     if hasattr(mod, "bounded"):
         for b in mod.bounded(tier, seed, fallback_for):
             bounded.append(b)
